@@ -123,6 +123,20 @@ func c13MakeTable(r *rand.Rand, delim byte, rows, cols int, crlf, quoted, traili
 						cell = c13Cell(r, delim, false)
 					}
 				}
+				if j == 0 && len(cell) >= 4 {
+					// a random [a-z0-9] cell at the start of a line must not spell a magic number of
+					// another format by chance (drpm, icns, 070707, an ftyp brand at offset 4 …):
+					// underscores at positions 1 and 5 leave no 4 adjacent random characters in front
+					plain := true
+					for k := 0; k < len(cell); k++ {
+						if !(cell[k] >= 'a' && cell[k] <= 'z' || cell[k] >= '0' && cell[k] <= '9') {
+							plain = false
+						}
+					}
+					if plain {
+						cell = cell[:1] + "_" + cell[1:4] + "_" + cell[4:]
+					}
+				}
 				if otherDelimInCells && !strings.HasPrefix(cell, `"`) {
 					cell += string(other) + "z"
 				}
